@@ -371,6 +371,9 @@ func init() {
 	// ---- sync ----
 	stdModels["(*sync.Mutex).Lock"] = func(ex *Exec, c *frame, fn *ssa.Function, a []Value) Value {
 		l := ex.lockOf(ptrArg(ex, a[0]))
+		if ex.preemptAtLocks {
+			ex.scheduler().yield("before-lock@" + c.shortPosSafe())
+		}
 		if l.held {
 			ex.scheduler().block(func() bool { return !l.held }, "lock@"+c.shortPosSafe())
 		}
@@ -398,6 +401,9 @@ func init() {
 	}
 	stdModels["(*sync.RWMutex).Lock"] = func(ex *Exec, c *frame, fn *ssa.Function, a []Value) Value {
 		l := ex.lockOf(ptrArg(ex, a[0]))
+		if ex.preemptAtLocks {
+			ex.scheduler().yield("before-lock@" + c.shortPosSafe())
+		}
 		if l.held || l.readers > 0 {
 			ex.scheduler().block(func() bool { return !l.held && l.readers == 0 }, "lock@"+c.shortPosSafe())
 		}
@@ -408,6 +414,9 @@ func init() {
 	stdModels["(*sync.RWMutex).Unlock"] = stdModels["(*sync.Mutex).Unlock"]
 	stdModels["(*sync.RWMutex).RLock"] = func(ex *Exec, c *frame, fn *ssa.Function, a []Value) Value {
 		l := ex.lockOf(ptrArg(ex, a[0]))
+		if ex.preemptAtLocks {
+			ex.scheduler().yield("before-rlock@" + c.shortPosSafe())
+		}
 		if l.held {
 			ex.scheduler().block(func() bool { return !l.held }, "rlock@"+c.shortPosSafe())
 		}
